@@ -2,6 +2,7 @@ package main
 
 import (
 	"go/token"
+	"sort"
 	"strings"
 
 	"golang.org/x/tools/go/ssa"
@@ -649,4 +650,76 @@ func c13shrink(c *Ctx, r *Result) {
 	}
 	r.Check(skip, "C13.7", c.Name(rd)+"#ignores-chunks-beyond-extent", c.Pos(rd.Pos()), "the full-read assembler tests scaled*chunkSize >= dims and leaves such chunks out (a shrunk dataset still lists them in its index)")
 	r.Floor("C13.7", 2)
+}
+
+func init() {
+	reg := registry["C13"]
+	reg.Meta.Rules["C13.9"] = "a resize within the declared maximum is not refused for creation-only reasons: nothing that Resize reaches fails because a chunk dimension exceeds a dataset dimension (legal after shrinking below one chunk; only creation requires chunk <= extent)"
+	reg.Rules = append(reg.Rules, func(c *Ctx, r *Result) {
+		rz := c.Fn(r, "hdf5.DatasetWriter.Resize")
+		if rz == nil {
+			return
+		}
+		set := c.Reach([]*ssa.Function{rz}, func(f *ssa.Function) bool {
+			pk := shortPkg(fnPkgPath(f))
+			return pk != "hdf5" && pk != "writer"
+		})
+		set[rz] = true
+		var fns []*ssa.Function
+		for f := range set {
+			pk := shortPkg(fnPkgPath(f))
+			if (pk == "hdf5" || pk == "writer") && f.Blocks != nil {
+				fns = append(fns, f)
+			}
+		}
+		sort.Slice(fns, func(i, j int) bool { return c.Name(fns[i]) < c.Name(fns[j]) })
+		n := 0
+		for _, fn := range fns {
+			env := &polyEnv{c: c, fn: fn}
+			for _, b := range fn.Blocks {
+				ifi, ok := b.Instrs[len(b.Instrs)-1].(*ssa.If)
+				if !ok || b.Succs[0] == b.Succs[1] {
+					continue
+				}
+				for arm, val := range []bool{true, false} {
+					// the arm must lead only to failing returns
+					onlyErr, any := true, false
+					for blk := range reachableFrom(b.Succs[arm], map[*ssa.BasicBlock]bool{b: true}) {
+						if ret, isRet := blk.Instrs[len(blk.Instrs)-1].(*ssa.Return); isRet {
+							any = true
+							if idx := errResultIndex(fn.Signature); idx < 0 || isNilConst(retOperand(ret, idx)) {
+								onlyErr = false
+							}
+						}
+					}
+					if !onlyErr || !any {
+						continue
+					}
+					p, rel, ok := env.condFact(ifi.Cond, val)
+					if !ok || len(p) < 2 || len(p) > 3 {
+						continue
+					}
+					var chunkAtom, dimAtom string
+					for m, cf := range p {
+						lm := strings.ToLower(m)
+						switch {
+						case m == "":
+						case strings.Contains(lm, "chunk") && cf > 0:
+							chunkAtom = m
+						case strings.Contains(lm, "dim") && !strings.Contains(lm, "chunk") && cf < 0:
+							dimAtom = m
+						}
+					}
+					if chunkAtom == "" || dimAtom == "" {
+						continue
+					}
+					n++
+					r.Viol("C13.9", c.Name(fn)+"#fails-when-chunk-exceeds-extent", c.InstrPos(ifi), "reached from Resize: fails when "+p.String()+" "+rel+" (a chunk dimension larger than the dataset dimension), which a shrink below one chunk extent legitimately produces")
+				}
+			}
+		}
+		if n == 0 {
+			r.Hold("C13.9", c.Name(rz)+"#no-creation-only-test-on-the-resize-path", c.Pos(rz.Pos()), itoa(len(fns))+" functions reached from Resize examined")
+		}
+	})
 }
